@@ -5,9 +5,12 @@ Enumerated (exhaustively, no sampling): deviation-bounded neighbourhoods of a se
 invalid program per diagnostic site).
   deviation 0   every seed x every option set of OPTION_SETS; every option spelling of OPTION_PROBES on a trivial unit
   deviation 1   at EVERY token position of every seed: delete, duplicate, swap-with-next, replace-by and
-                insert-before each token of the tier's token alphabet (+ insert at end)
-  byte level    every byte of every seed replaced by each of BYTE_ALPHABET, truncation at every byte offset
-  deviation 2   (thorough) all ordered pairs of deviation-1 edits with the DEV2 alphabet for seeds <= DEV2_MAXTOK tokens
+                insert-before each token of the tier's token alphabet (+ insert at end); quick: QUICK_ALPHABET
+                (12 tokens), thorough: FULL_ALPHABET (160: all punctuators, keywords/builtins, identifiers of each
+                kind, well- and ill-formed literals, directive starts, comment/splice starts)
+  byte level    every byte of every seed replaced by each of BYTE_ALPHABET[tier], truncation at every byte offset
+  deviation 2   (thorough) every deviation-1 edit (DEV2_ALPHABET) of every deviation-1 edit, for seeds of at most
+                DEV2_MAXTOK tokens
 Variants are de-duplicated by content.  Each one is run as `chibicc -cc1 -cc1-input v.c -cc1-output v.s v.c` by
 harness/c13_run.c under RLIMIT_CPU 5 s / RLIMIT_AS 2 GB / 60 s wall, observed from outside with ptrace.
 
